@@ -61,7 +61,7 @@ def check(chk: Check) -> None:
     F = chk.facts
     R1 = chk.rule('C13.R1', 'no statement reachable from a non-mutating builtin applies a mutating operation (mutating '
                             'method, subscript/attribute store or del, in-place operator, mutating library call) to a '
-                            'value that is (part of) one of its arguments', floor=39)
+                            'value that is (part of) one of its arguments', floor=25)
     R2 = chk.rule('C13.R2', 'callbacks are the program\'s business: calls of a parameter are recorded, not flagged', floor=3)
     chk.decided += ['mutation effects of every non-mutator in the function table, through helpers (inlined) and closures']
     chk.assumptions += ['the purity classification of Python builtins/descriptors used raw in the table (len, str, dict, min, max, str.*) and of '
